@@ -54,7 +54,10 @@ DCutEnd == UNION {{ [f |-> File1(c), e |-> Expect({"IncompleteTag", "MissingEndT
                               <<Elem("o", <<>>, <<Mark(n, "cutend")>>)>> } } : n \in Leafs }
 (* --- unterminated {{ and trailing garbage in a binding, in text and attribute positions *)
 BadVals(dx) == { Mark(EV(e), dx) : e \in {EA, Mem(Id("o"), "p"), Bin("+", EA, Lit("1")), Call(Id("f"), <<EA>>),
-                                          Arr(<<Item(EA)>>), Cond(EA, EB, Lit("1"))} }
+                                          Arr(<<Item(EA)>>), Cond(EA, EB, Lit("1")),
+                                          (* object literals: the garbage stands after the last field, inside the braces or in
+                                             the form without braces *)
+                                          Obj(<<Named("k", EA)>>), Obj(<<Named("k", EA), Named("j", Lit("1"))>>), Obj(<<Short("a"), Named("k", EB)>>)} }
 DUnterminated == UNION {{ [f |-> File1(c), e |-> Expect({"MissingExpressionEnd", "UnexpectedExpressionCharacter"}), w |-> "unterminated {{"] :
                             c \in Ctx(Elem("v", <<Attr(fam, "p", v)>>, <<>>)) \cup {<<Text(<<S("x"), [t |-> "e", e |-> v.e, dx |-> "unterminated"]>>)>>} } :
                           v \in BadVals("unterminated"), fam \in {"plain", "data:", "bind"} }
